@@ -71,6 +71,15 @@ def correspondence(ctx, violations, known_hits):
     model_obj = ctx.run_model([obj_case(f, t) for f, t, _ in progs], tag="obj")
     model_src = ctx.run_model([src_case(f, fuel, t, inp) for f, t, inp in progs], tag="src")
 
+    def stale(i):
+        """Contents of the destination before `compile`: absent, a LONGER valid object file (putn; putn; halt; ...), a shorter one."""
+        k = i % 4
+        if k == 1:
+            return bytes.fromhex("3000" + "f026" * 3 + "f025" + "1021" * 40)
+        if k == 2:
+            return bytes.fromhex("3000")
+        return None
+
     def job(i):
         feat, text, inp = progs[i]
         def run():
@@ -78,6 +87,10 @@ def correspondence(ctx, violations, known_hits):
             with open(os.path.join(sub, "p.asm"), "w", encoding="utf-8", newline="") as f:
                 f.write(text)
             fl = ["-f", "stack"] if feat else []
+            pre = stale(i)
+            if pre is not None:          # the destination already exists: a longer / shorter object file of an earlier build
+                with open(os.path.join(sub, "out.lc3"), "wb") as f:
+                    f.write(pre)
             rc, so, se = clicommon.run_cli(exe, ["compile", "p.asm", "out.lc3"] + fl, sub)
             data = open(os.path.join(sub, "out.lc3"), "rb").read() if os.path.exists(os.path.join(sub, "out.lc3")) else None
             r_src = clicommon.run_cli(exe, ["run", "p.asm", "--minimal"] + fl, sub, stdin=inp)
@@ -93,7 +106,8 @@ def correspondence(ctx, violations, known_hits):
         mo = [int(x, 16) for x in model_obj[i][0].split()]
         ev += 1
         exp_bytes = bytes(mo[2:2 + mo[1]]) if mo[0] == 0 else None
-        ok = (rc == mo[0]) and (data == exp_bytes)
+        # accepted: exactly the object bytes, whatever was there before; rejected: the destination as it was
+        ok = (rc == mo[0]) and (data == (exp_bytes if mo[0] == 0 else stale(i)))
         hist["compiled" if mo[0] == 0 else "rejected"] += 1
         sig = ("obj", mo[0], min(mo[1], 8))
         if sig not in sigs:
@@ -104,6 +118,7 @@ def correspondence(ctx, violations, known_hits):
             nv += 1
             if nv <= 5:
                 violations.append({"kind": "compile-bytes", "source": text, "feature_stack": feat, "cli_exit": rc,
+                                   "destination_before": stale(i).hex() if stale(i) is not None else None,
                                    "cli_bytes": data.hex() if data is not None else None, "model_exit": mo[0],
                                    "model_bytes": exp_bytes.hex() if exp_bytes is not None else None})
             continue
@@ -154,7 +169,7 @@ def correspondence(ctx, violations, known_hits):
     ctx.cleanup()
     return {
         "evaluations": ev, "distinct_nontrivial": len(sigs),
-        "rule": "CLI: `lace compile` bytes and exit status vs the model's object bytes for random programs (both feature settings, "
+        "rule": "CLI: `lace compile` bytes and exit status vs the model's object bytes for random programs (both feature settings; the destination absent, or already holding a longer or a shorter object file), "
                 "all origins); `lace run file.lc3` vs `lace run file.asm` vs the model (exit status and program output, with stdin); "
                 "loader fed byte strings of every length 0-9, odd lengths, images ending at/below/above the top of memory and random "
                 "images, as .lc3 and .obj; distinct = distinct (kind, outcome, size class)",
